@@ -1,2 +1,3 @@
 import ButlerModel.Props.C11
+import ButlerModel.Props.C12
 import ButlerModel.Props.C15
